@@ -69,8 +69,15 @@ pub fn instrument(bytes: &[u8], plan: &[Probe], api: u8) -> Result<Vec<u8>, Pani
         // api 0 / 1: module iterator / function modifier, function-level probes issued last (the usage the
         // repository's tests show); api 2: function modifier, strictly in plan order (it is finished after
         // every probe, so a function-level mode does not stay active)
+        // api 3: module iterator, `finish_instr()` called after every probe (the documented way to leave a
+        // mode; the injected code must survive it)
         let strict = api == 2;
-        let api = if api == 2 { 1 } else { api };
+        let iter_finish = api == 3;
+        let api = match api {
+            2 => 1,
+            3 => 0,
+            a => a,
+        };
         let mut ordered: Vec<&Probe> = if strict { plan.iter().collect() } else { plan.iter().filter(|p| !matches!(p.mode, Mode::FuncEntry | Mode::FuncExit)).collect() };
         if !strict {
             ordered.extend(plan.iter().filter(|p| matches!(p.mode, Mode::FuncEntry | Mode::FuncExit)));
@@ -116,6 +123,9 @@ pub fn instrument(bytes: &[u8], plan: &[Probe], api: u8) -> Result<Vec<u8>, Pani
                 }
                 for op in code {
                     it.inject(op);
+                }
+                if iter_finish && !matches!(p.mode, Mode::FuncEntry | Mode::FuncExit) {
+                    it.finish_instr();
                 }
             } else {
                 let mut fm = module.functions.get_fn_modifier(FunctionID(f)).expect("harness: local function");
@@ -441,6 +451,23 @@ pub fn judge(case: &Case, keep_modules: bool) -> Result<Judged, String> {
         }
         let (m1, g1) = gaps(&r1.log);
         let (m2, g2) = gaps(&r2.log);
+        // function entry/exit probes: their ORDER is fixed (entry code runs before anything else of
+        // the activation, exit code last; several probes of one kind in injection order), so their
+        // sub-sequence of the log is compared as a sequence
+        let fn_level: HashSet<i32> = case.plan.iter().filter(|p| matches!(p.mode, Mode::FuncEntry | Mode::FuncExit)).map(|p| p.id).collect();
+        if !fn_level.is_empty() && m1 == m2 {
+            let proj = |log: &[LogEntry]| -> Vec<LogEntry> { log.iter().filter(|e| match e { LogEntry::Mark(_) => true, LogEntry::Probe(i) => fn_level.contains(i) }).cloned().collect() };
+            let (p1, p2) = (proj(&r1.log), proj(&r2.log));
+            let same_multiset = {
+                let (mut a, mut b) = (p1.iter().map(|e| format!("{:?}", e)).collect::<Vec<_>>(), p2.iter().map(|e| format!("{:?}", e)).collect::<Vec<_>>());
+                a.sort();
+                b.sort();
+                a == b
+            };
+            if p1 != p2 && same_multiset {
+                j.clauses.push(Clause { mode: Some(Mode::FuncEntry), sig: "event order func-entry/func-exit".into(), detail: format!("input ({},{}): expected order {:?}, instrumented module {:?}", a, b, p1, p2) });
+            }
+        }
         if m1 != m2 {
             j.clauses.push(Clause { mode: None, sig: format!("behaviour marks differ [{}]", plan_modes(&case.plan)), detail: format!("input ({},{}): marks {:?} vs {:?}", a, b, m1, m2) });
             continue;
@@ -526,7 +553,7 @@ pub fn sites(prog: &Program, modes: &[Mode]) -> Vec<(u8, usize, Mode)> {
 fn program_calls(p: &Program) -> bool {
     fn has(ss: &[Stmt]) -> bool {
         ss.iter().any(|s| match s {
-            Stmt::Call | Stmt::RetCall => true,
+            Stmt::Call | Stmt::RetCall | Stmt::RetCallInd => true,
             Stmt::Block(b) | Stmt::Loop(b) => has(b),
             Stmt::If(_, t, e) => has(t) || e.as_ref().map(|e| has(e)).unwrap_or(false),
             _ => false,
@@ -645,6 +672,20 @@ fn run_families(run: &mut Run, fams: &[Family], judged_modes: &[Mode], judge_beh
                             all_plans.push((first.clone(), Some(0)));
                             all_plans.push((first, Some(2)));
                         }
+                        // an ordinary `after` probe with the SAME body on the same construct, injected first:
+                        // the body then runs twice per entry (arm entry for block / if / else openers)
+                        let singles: Vec<Probe> = all_plans.iter().filter(|(p, a)| p.len() == 1 && a.is_none()).map(|(p, _)| p[0].clone()).collect();
+                        for sp in singles {
+                            if sp.func != 0 || matches!(sp.mode, Mode::FuncEntry | Mode::FuncExit | Mode::Before | Mode::After) {
+                                continue;
+                            }
+                            if !matches!(em.roles[0].get(sp.at), Some(Role::Block) | Some(Role::If) | Some(Role::Else)) {
+                                continue;
+                            }
+                            let twin = Probe { func: 0, at: sp.at, mode: Mode::After, id: sp.id };
+                            all_plans.push((vec![twin.clone(), sp.clone()], Some(0)));
+                            all_plans.push((vec![twin, sp], Some(2)));
+                        }
                     }
                 }
                 if !fam.companions.is_empty() {
@@ -666,7 +707,7 @@ fn run_families(run: &mut Run, fams: &[Family], judged_modes: &[Mode], judge_beh
                     }
                 }
                 for (k, (plan, forced_api)) in all_plans.into_iter().enumerate() {
-                    let api = forced_api.unwrap_or(((pi + k) % 2) as u8);
+                    let api = forced_api.unwrap_or([0u8, 1, 3][(pi + k) % 3]);
                     let case = Case { program: prog.clone(), plan, api };
                     let keep = tier == Tier::Thorough || (pi + k) % 97 == 0;
                     let r = match catch(|| judge(&case, keep)) {
@@ -756,7 +797,7 @@ pub fn check(id: &'static str, tier: Tier) -> i32 {
             // one node more, over the exit-relevant statements only (no loops, one condition): reaches
             // `if c {transfer} else {exit}` and exits behind dead code, which the lowering has to treat
             // per arm (seeded change C17b)
-            let gr = g(tier.pick(4, 5), 3, &[Mark, Br, Ret, Unr, RetCall, Throw], true, false, true, true, &[Cond::A], 0);
+            let gr = g(tier.pick(4, 5), 3, &[Mark, Br, Ret, Unr, RetCall, RetCallInd, Throw], true, false, true, true, &[Cond::A], 0);
             fams.push(Family { name: "exits in both arms and behind dead code", programs: programs(&gr, &callees), modes: modes.clone(), probes: tier.pick(1, 2), same_site_twice: false, with_ordinary: false, companions: vec![] });
             let gr = g(tier.pick(3, 4), 3, &[Mark, Br, Ret, Unr], true, false, true, true, &[Cond::A], 0);
             fams.push(Family { name: "entry/exit probes with an ordinary probe on the same function", programs: programs(&gr, &callees), modes: modes.clone(), probes: 2, same_site_twice: false, with_ordinary: true, companions: vec![] });
@@ -797,6 +838,9 @@ pub fn check(id: &'static str, tier: Tier) -> i32 {
             fams.push(Family { name: "semantic-after probes with an ordinary probe on the same function", programs: programs(&gr, &callees), modes: modes.clone(), probes: 2, same_site_twice: false, with_ordinary: true, companions: vec![] });
             let gr = g(tier.pick(3, 4), 3, &[Mark, Br, BrIf], true, false, true, true, &[Cond::A], 0);
             fams.push(Family { name: "semantic-after probe with a probe of another special mode on the same function", programs: programs(&gr, &callees), modes: modes.clone(), probes: 1, same_site_twice: false, with_ordinary: false, companions: vec![Mode::BlockEntry, Mode::BlockExit, Mode::FuncEntry, Mode::FuncExit] });
+            // two probed branches in sibling constructs (the first target closes before the second branch)
+            let gr = g(5, 2, &[Mark, Br], true, false, true, false, &[Cond::A], 0);
+            fams.push(Family { name: "branches in sibling blocks", programs: programs(&gr, &callees).into_iter().filter(|p| p.main.len() == 2 && p.main.iter().all(|s| matches!(s, Stmt::Block(_)))).collect(), modes: modes.clone(), probes: 2, same_site_twice: false, with_ordinary: false, companions: vec![] });
             for results in 1..3u8 {
                 let gr = g(3, 2, &[Mark, Br, BrIf], true, false, true, true, &[Cond::A, Cond::B], results);
                 fams.push(Family { name: ["", "results=[i32]", "results=[i32,i64]"][results as usize], programs: programs(&gr, &callees), modes: modes.clone(), probes: 2, same_site_twice: false, with_ordinary: false, companions: vec![] });
